@@ -323,6 +323,9 @@ def generate(model: Model):
     try:
         mod, tree = _fresh("_merge")
         for cdef in (x for x in tree.body if isinstance(x, ast.ClassDef) and x.name == "BroadcastJoin"):
+            for fn in (x for x in cdef.body if isinstance(x, ast.FunctionDef) and x.name == "_layer"):
+                for nm in (x for x in ast.walk(fn) if isinstance(x, ast.Name) and x.id == "_split_partition_like_shuffle"):
+                    yield "mutant", "revert:broadcast-join-foreign-splitter", "R10i", mod.rel, _splice(mod.source, nm, "_split_partition")
             for fn in (x for x in cdef.body if isinstance(x, ast.FunctionDef) and x.name == "broadcast_side"):
                 s_, e_ = _span(mod.source, cdef)
                 yield "mutant", "revert:broadcast-side-rederived", "R10g", mod.rel, mod.source[:s_] + mod.source[s_:e_].replace("def broadcast_side(self)", "def _broadcast_side_disabled(self)", 1) + mod.source[e_:]
